@@ -69,6 +69,15 @@ impl K {
     }
 }
 
+/// sign class of a raw feed: the domain analysis asks under which class every Drawdown / LnReturn input
+/// and every divisor stays positive
+#[derive(Clone, Copy, PartialEq, Eq, Debug, PartialOrd, Ord)]
+pub enum Sign {
+    Any,
+    NonNeg,
+    Positive,
+}
+
 #[derive(Clone, Debug, PartialEq)]
 pub struct Spec {
     pub k: K,
@@ -273,34 +282,73 @@ impl Spec {
 
     /// Conservative: is every output of this tree > 0 whenever every raw input is > 0?
     pub fn positive(&self) -> bool {
+        self.pos(Sign::Positive)
+    }
+    /// Conservative: every output > 0 when the raw inputs are of sign class `f`?
+    pub fn pos(&self, f: Sign) -> bool {
         match self.k {
-            K::Echo | K::Probe => true,
+            K::Echo | K::Probe => f == Sign::Positive,
             K::Const => self.p > 0.0,
-            K::Stall => self.kids[0].positive(),
+            K::Stall => self.kids[0].pos(f),
             // AlmaCustom is deliberately absent: with a small offset / large sigma the steady-state weight is
             // ~1e-16 of the start-up weights, so in f64 its subtractive weight sum is cancellation residue and
             // the output of a positive stream need not be positive (numerical accuracy: C16's subject)
-            K::Sma | K::Ema | K::Alma | K::Min | K::Max | K::Cumulative => self.kids[0].positive(),
-            K::EmaAlpha => self.kids[0].positive() && self.p > 0.0 && self.p <= (self.n as f64 + 1.0),
-            K::Gte => self.p > 0.0 || self.kids[0].positive(),
-            K::Lte => self.p > 0.0 && self.kids[0].positive(),
-            K::Add | K::Mul | K::Div => self.kids[0].positive() && self.kids[1].positive(),
+            K::Sma | K::Ema | K::Alma | K::Min | K::Max | K::Cumulative => self.kids[0].pos(f),
+            K::EmaAlpha => self.kids[0].pos(f) && self.p > 0.0 && self.p <= (self.n as f64 + 1.0),
+            K::Gte => self.p > 0.0 || self.kids[0].pos(f),
+            K::Lte => self.p > 0.0 && self.kids[0].pos(f),
+            K::Add => (self.kids[0].pos(f) && self.kids[1].nonneg(f)) || (self.kids[0].nonneg(f) && self.kids[1].pos(f)),
+            K::Mul | K::Div => self.kids[0].pos(f) && self.kids[1].pos(f),
             _ => false,
         }
     }
-    /// Does the tree need a strictly positive feed (Drawdown / LnReturn / divisor positions)?
+    /// Conservative: every output >= 0 (exactly, also in f64: no subtractive running sums) for inputs of class `f`?
+    pub fn nonneg(&self, f: Sign) -> bool {
+        if self.pos(f) {
+            return true;
+        }
+        match self.k {
+            K::Echo | K::Probe => f != Sign::Any,
+            K::Const => self.p >= 0.0,
+            K::Stall => self.kids[0].nonneg(f),
+            K::Ema | K::Min | K::Max | K::Tanh => self.kids[0].nonneg(f),
+            K::EmaAlpha => self.kids[0].nonneg(f) && self.p > 0.0 && self.p <= (self.n as f64 + 1.0),
+            K::Gte => self.p >= 0.0 || self.kids[0].nonneg(f),
+            K::Lte => self.p >= 0.0 && self.kids[0].nonneg(f),
+            K::Add | K::Mul => self.kids[0].nonneg(f) && self.kids[1].nonneg(f),
+            K::Div => self.kids[0].nonneg(f) && self.kids[1].pos(f),
+            K::BinaryEntropy | K::Drawdown | K::WelfordRolling | K::WelfordOnline => true,
+            _ => false,
+        }
+    }
+    /// Does the tree have positions with a domain condition (Drawdown / LnReturn input, divisor)?
     pub fn needs_positive_feed(&self) -> bool {
         self.any(&|s| matches!(s.k, K::Drawdown | K::LnReturn | K::Div))
     }
-    /// Are the domain conditions of every node satisfied under a positive feed?
-    pub fn domain_ok_positive_feed(&self) -> bool {
+    /// Are the domain conditions of every node satisfied for raw inputs of sign class `f`?
+    pub fn domain_ok(&self, f: Sign) -> bool {
         let mut ok = true;
         self.walk(&mut |s| match s.k {
-            K::Drawdown | K::LnReturn => ok &= s.kids[0].positive(),
-            K::Div => ok &= s.kids[1].positive(),
+            K::Drawdown | K::LnReturn => ok &= s.kids[0].pos(f),
+            K::Div => ok &= s.kids[1].pos(f),
             _ => {}
         });
         ok
+    }
+    pub fn domain_ok_positive_feed(&self) -> bool {
+        self.domain_ok(Sign::Positive)
+    }
+    /// the weakest class of raw inputs under which every node stays inside its domain
+    pub fn feed_sign(&self) -> Option<Sign> {
+        if self.domain_ok(Sign::Any) {
+            Some(Sign::Any)
+        } else if self.domain_ok(Sign::NonNeg) {
+            Some(Sign::NonNeg)
+        } else if self.domain_ok(Sign::Positive) {
+            Some(Sign::Positive)
+        } else {
+            None
+        }
     }
 
     /// replace every leaf by `leaf(i)` where i counts leaves in DFS order of the `view` positions;
